@@ -16,7 +16,7 @@ use taskchampion::{Operation, Replica};
 
 pub const NUUID: usize = 4;
 
-#[derive(Clone, Debug)]
+#[derive(Clone, Debug, PartialEq)]
 pub enum SOp {
     Create(usize),
     Delete(usize),
